@@ -19,7 +19,7 @@ open Ymq.Factor
 variable {σ : Type}
 
 /-- **`factor_total`** (full statement, all ten selectors). Under the oracle contract, for every
-`n` (inputs above 510 bits are refused with the declared failure), every selector whose size
+`n` (inputs above 500 bits are refused with the declared failure), every selector whose size
 precondition is met (`SelectorPre`: Qs64/Rho/Squfof need `bits n ≤ 64`), every `prime` and
 `abort` behaviour and fuel `≥ bits n`: `factor` returns a list (whose product is `n`) or the
 declared failure value — never a panic site of lib.rs, never fuel exhaustion (= the recursion
